@@ -273,7 +273,11 @@ func (s *kvGenState) readOp(slot string) {
 			s.op("names"+cl, "names %s %s", slot, pt)
 		}
 	case 6:
-		s.op("has"+cl, "has %s %s", slot, pt)
+		if r.Intn(3) == 0 {
+			s.op("hasf"+cl, "hasf %s %s", slot, pt)
+		} else {
+			s.op("has"+cl, "has %s %s", slot, pt)
+		}
 	case 7:
 		// parent of an existing bucket, or a deeper non-existing one
 		if len(p) > 1 && r.Intn(2) == 0 {
@@ -341,6 +345,7 @@ func (s *kvGenState) writeOp() {
 		if len(p) >= 2 {
 			s.delAt("w", p)
 			s.op("has-w", "has w %s", pt)
+			s.op("hasf-w", "hasf w %s", pt)
 			if r.Intn(2) == 0 {
 				s.op("put", "put w %s %s %s", pt, hexTok(s.usedKey()), hexTok(s.randVal()))
 			}
